@@ -39,7 +39,7 @@ CHECKS = {
                 note="in the corner the statement leaves open (same seq, same value, mismatching cas) both accept and 301 are legal; an expired item that was not yet deleted may or may not still block a lower-seq put",
                 ref="DESIGN.md 5/C13"),
     "C14": dict(level="fault_enumeration", technique="exhaustive enumeration of a fault/timing placement grid on the real dht.Server in a testing/synctest bubble (virtual clock, fake socket with scripted write errors, simulated peers)",
-                text="Grid (resend delay 1 s, 1 ns resolution): one Query with NumTries 1..3 x reply instant x ctx-cancel instant x Server.Close instant, each in {never, right after the first send, d/2, k*d - 1 ns, k*d + 1 ns}, x scripted socket write error on send i, x rate-limit options {default, NoWaitFirst, WaitOnRetries, NotAny} with a full or an empty limiter; every API call (Ping, FindNode, GetPeers, Get, Put) and every traversal (Bootstrap, BootstrapContext, AnnounceTraversal with/without announcing and with Close / StopTraversing, getput.Get mutable and immutable, getput.Put) under 7 start conditions (empty starting nodes, nil resolver, resolver error, one silent node, one answering node, 3-node network with a silent member, two nodes one silent) x stop instant {never, 0, 0.5 s, 2.5 s}; failing starts are repeated 3 times on one server. Oracle: the call returns; with the cause whose decisive instant comes first (reply / ctx / send error / closed / time-out after the last resend interval; same-instant ties accept either); at most NumTries datagrams and none after the return; in the first quiescent state after the return no pending transaction (Stats and dispatcher) and no goroutine with a frame in the module except the serve loop; after Close a new query fails and writes nothing and no goroutine remains.",
+                text="Grid (resend delay 1 s, 1 ns resolution): one Query with NumTries 1..3 x reply instant x ctx-cancel instant x Server.Close instant, each in {never, right after the first send, d/2, k*d - 1 ns, k*d + 1 ns}, x scripted socket write error on send i, x a socket write that is stuck for half an interval with the reply, the cancellation or Close falling inside that window, x rate-limit options {default, NoWaitFirst, WaitOnRetries, NotAny} with a full or an empty limiter; every API call (Ping, FindNode, GetPeers, Get, Put) and every traversal (Bootstrap, BootstrapContext, AnnounceTraversal with/without announcing and with Close / StopTraversing, getput.Get mutable and immutable, getput.Put) under 7 start conditions (empty starting nodes, nil resolver, resolver error, one silent node, one answering node, 3-node network with a silent member, two nodes one silent) x stop instant {never, 0, 0.5 s, 2.5 s}; failing starts are repeated 3 times on one server. Oracle: the call returns; with the cause whose decisive instant comes first (reply / ctx / send error / closed / time-out after the last resend interval; same-instant ties accept either); at most NumTries datagrams and none after the return; in the first quiescent state after the return no pending transaction (Stats and dispatcher) and no goroutine with a frame in the module except the serve loop; after Close a new query fails and writes nothing and no goroutine remains.",
                 note="BootstrapContext returns at once on ctx cancellation while its context-less find_node queries run to their own time-out: for that case cleanup is checked at the horizon instead of at the return; goroutines stranded by earlier executions in the same process are excluded by bubble id",
                 ref="DESIGN.md 5/C14"),
     "C16": dict(level="model_checking", technique=E1 + "; letters are the pending outbound queries of the real AnnounceTraversal (answer / let time out) plus Close / StopTraversing at every position",
